@@ -316,6 +316,9 @@ def check_C09(c):
             # destinations with a layout of their own (a lazily transposed tensor, a view, a window) for reuse and incr
             ("linalg-dest", dict(MaxDim=3, MaxRankT=2, LayA={S("C"), S("T")}, LayB={S("C"), S("Col")}, LayD={S(x) for x in ("T", "Col", "Row", "Step")},
                                  Modes={S("reuse"), S("incr")}, Kinds={S(x) for x in ("MatMul", "MatVecMul", "Outer")}))]
+    # rank-4 operands (dims <= 2) in general contractions
+    jobs.append(("linalg-tensor4", dict(MaxDim=2, MaxRankT=4, LayA={S("C")}, LayB={S("C")} if q else {S("C"), S("T")}, LayD={S("C")}, Modes={S("safe")},
+                                        Kinds={S("TensorMul4")})))
     if not q:
         jobs.append(("linalg-mat4", dict(MaxDim=4, MaxRankT=2, LayA={S("C"), S("T"), S("Col")}, LayB={S("C"), S("T"), S("Col")}, LayD={S("C")},
                                          Modes={S("safe"), S("reuse"), S("incr")}, Kinds={S("MatMul"), S("MatVecMul"), S("Outer")})))
